@@ -24,6 +24,7 @@ package lua
 //@ ensures  forall k int :: 0 <= k && k < rg.top ==> rg.array[k] == old(rg.array[k])
 //@ ensures  fresh(rg.array)
 //@ noraise
+//@ ensures  cap(rg.array) >= old(cap(rg.array))
 //@ modifies rg.array
 
 //@ func (*registry).resize [C01 C10 C12]
@@ -32,6 +33,7 @@ package lua
 //@ ensures  Inv_reg(rg) && cap(rg.array) >= requiredSize && rg.top == old(rg.top)
 //@ ensures  forall k int :: 0 <= k && k < rg.top ==> rg.array[k] == old(rg.array[k])
 //@ ensures  fresh(rg.array)
+//@ ensures  cap(rg.array) >= old(cap(rg.array))
 //@ modifies rg.array
 
 //@ func (*registry).checkSize [C01 C10 C12]
@@ -40,6 +42,7 @@ package lua
 //@ ensures  Inv_reg(rg) && cap(rg.array) >= requiredSize && rg.top == old(rg.top)
 //@ ensures  forall k int :: 0 <= k && k < rg.top ==> rg.array[k] == old(rg.array[k])
 //@ ensures  arrSameOrFresh(rg)
+//@ ensures  cap(rg.array) >= old(cap(rg.array))
 //@ modifies rg.array
 
 //@ define overflow(rg *registry, n int) bool = n > cap(rg.array) && ite(n + rg.growBy > rg.maxSize, rg.maxSize, n + rg.growBy) < n
@@ -51,6 +54,7 @@ package lua
 //@ ensures  forall k int :: 0 <= k && k < topi && k < old(rg.top) ==> rg.array[k] == old(rg.array[k])
 //@ ensures  forall k int :: old(rg.top) <= k && k < topi ==> rg.array[k] == LNil
 //@ ensures  arrSameOrFresh(rg)
+//@ ensures  cap(rg.array) >= old(cap(rg.array))
 //@ modifies rg.array, rg.top, rg.array[*]
 //@ loop 1 invariant oldtopi <= i && Inv_reg(rg) && rg.top == topi && oldtopi == old(rg.top)
 //@ loop 1 invariant forall k int :: 0 <= k && k < old(rg.top) && k < topi ==> rg.array[k] == old(rg.array[k])
@@ -64,6 +68,7 @@ package lua
 //@ ensures  Inv_reg(rg) && rg.top == old(rg.top) + 1 && rg.array[old(rg.top)] == v
 //@ ensures  forall k int :: 0 <= k && k < old(rg.top) ==> rg.array[k] == old(rg.array[k])
 //@ ensures  arrSameOrFresh(rg)
+//@ ensures  cap(rg.array) >= old(cap(rg.array))
 //@ modifies rg.array, rg.top, rg.array[*]
 
 //@ func (*registry).Pop [C01 C10 C12]
@@ -79,6 +84,7 @@ package lua
 //@ ensures  Inv_reg(rg) && rg.array[regi] == vali && rg.top == ite(regi >= old(rg.top), regi+1, old(rg.top))
 //@ ensures  forall k int :: 0 <= k && k < old(rg.top) && k != regi ==> rg.array[k] == old(rg.array[k])
 //@ ensures  arrSameOrFresh(rg)
+//@ ensures  cap(rg.array) >= old(cap(rg.array))
 //@ modifies rg.array, rg.top, rg.array[*]
 
 //@ func (*registry).IsFull [C01 C12]
@@ -94,6 +100,7 @@ package lua
 //@ ensures  forall k int :: regm <= k && k < regm+n ==> rg.array[k] == LNil
 //@ ensures  forall k int :: 0 <= k && k < regm && k < old(rg.top) ==> rg.array[k] == old(rg.array[k])
 //@ ensures  arrSameOrFresh(rg)
+//@ ensures  cap(rg.array) >= old(cap(rg.array))
 //@ modifies rg.array, rg.top, rg.array[*]
 //@ loop 1 invariant 0 <= i && Inv_reg(rg) && rg.top == old(rg.top) && cap(rg.array) >= regm + n
 //@ loop 1 invariant forall k int :: regm <= k && k < regm+i ==> rg.array[k] == LNil
@@ -111,6 +118,7 @@ package lua
 //@ ensures  forall k int :: regv <= k && k < regv+n ==> rg.array[k] == ite(start+k-regv < 0 || start+k-regv >= old(lim0(rg, limit)), LNil, old(rg.array[start+k-regv]))
 //@ ensures  forall k int :: 0 <= k && k < regv && k < old(rg.top) ==> rg.array[k] == old(rg.array[k])
 //@ ensures  arrSameOrFresh(rg)
+//@ ensures  cap(rg.array) >= old(cap(rg.array))
 //@ modifies rg.array, rg.top, rg.array[*]
 //@ loop 1 invariant 0 <= i && Inv_reg(rg) && rg.top == old(rg.top) && cap(rg.array) >= regv + n && limit == old(lim0(rg, limit))
 //@ loop 1 invariant forall k int :: regv <= k && k < regv+i ==> rg.array[k] == ite(start+k-regv < 0 || start+k-regv >= limit, LNil, old(rg.array[start+k-regv]))
@@ -312,6 +320,7 @@ package lua
 //@ raises when overflow(ls.reg, top(ls) + 1)
 //@ ensures  Inv_api(ls) && top(ls) == old(top(ls)) + 1 && ls.reg.array[old(top(ls))] == value && base(ls) == old(base(ls))
 //@ ensures  forall k int :: 0 <= k && k < old(top(ls)) ==> ls.reg.array[k] == old(ls.reg.array[k])
+//@ ensures  arrSameOrFresh(ls.reg) && cap(ls.reg.array) >= old(cap(ls.reg.array))
 //@ modifies ls.reg.array, ls.reg.top, ls.reg.array[*]
 
 //@ func (*LState).Pop [C10]
@@ -330,6 +339,7 @@ package lua
 //@ ensures  top(ls) == old(ite(idx > 0, base(ls)+idx, ite(idx == 0 || top(ls)+idx+1 < base(ls), base(ls), top(ls)+idx+1)))
 //@ ensures  forall k int :: 0 <= k && k < top(ls) && k < old(top(ls)) ==> ls.reg.array[k] == old(ls.reg.array[k])
 //@ ensures  forall k int :: old(top(ls)) <= k && k < top(ls) ==> ls.reg.array[k] == LNil
+//@ ensures  arrSameOrFresh(ls.reg) && cap(ls.reg.array) >= old(cap(ls.reg.array))
 //@ modifies ls.reg.array, ls.reg.top, ls.reg.array[*]
 
 //@ define i2r(ls *LState, idx int) int = ite(idx > 0, base(ls)+idx-1, ite(idx == 0, -1, ite(top(ls)+idx < base(ls), -1, top(ls)+idx)))
@@ -343,6 +353,7 @@ package lua
 //@ ensures  old(i2r(ls, index) < top(ls)) ==> top(ls) == old(top(ls)) + 1 && ls.reg.array[old(max(i2r(ls, index), base(ls)))] == value
 //@ ensures  old(i2r(ls, index) < top(ls)) ==> forall k int :: old(max(i2r(ls, index), base(ls))) < k && k <= old(top(ls)) ==> ls.reg.array[k] == old(ls.reg.array[k-1])
 //@ ensures  old(i2r(ls, index) < top(ls)) ==> forall k int :: 0 <= k && k < old(max(i2r(ls, index), base(ls))) ==> ls.reg.array[k] == old(ls.reg.array[k])
+//@ ensures  arrSameOrFresh(ls.reg) && cap(ls.reg.array) >= old(cap(ls.reg.array))
 //@ modifies ls.reg.array, ls.reg.top, ls.reg.array[*]
 //@ loop 1 invariant Inv_api(ls) && ls.reg == old(ls.reg) && reg == old(max(i2r(ls, index), base(ls))) && reg <= old(top(ls)) && reg - 1 <= top && top <= old(top(ls)) - 1
 //@ loop 1 invariant ls.reg.top == ite(top < old(top(ls)) - 1, old(top(ls)) + 1, old(top(ls)))
@@ -359,6 +370,7 @@ package lua
 //@ ensures  old(i2r(ls, index) < top(ls) && i2r(ls, index) >= base(ls)) ==> top(ls) == old(top(ls)) - 1
 //@ ensures  old(i2r(ls, index) < top(ls) && i2r(ls, index) >= base(ls)) ==> forall k int :: 0 <= k && k < old(i2r(ls, index)) ==> ls.reg.array[k] == old(ls.reg.array[k])
 //@ ensures  old(i2r(ls, index) < top(ls) && i2r(ls, index) >= base(ls)) ==> forall k int :: old(i2r(ls, index)) <= k && k < top(ls) ==> ls.reg.array[k] == old(ls.reg.array[k+1])
+//@ ensures  arrSameOrFresh(ls.reg) && cap(ls.reg.array) >= old(cap(ls.reg.array))
 //@ modifies ls.reg.array, ls.reg.top, ls.reg.array[*]
 //@ loop 1 invariant Inv_api(ls) && ls.reg == old(ls.reg) && reg == old(i2r(ls, index)) && top == old(top(ls)) && ls.reg.top == top && base(ls) <= reg && reg < top - 1 && reg <= i
 //@ loop 1 invariant arrid(ls.reg.array) == old(arrid(ls.reg.array)) || fresh(ls.reg.array)
@@ -371,4 +383,5 @@ package lua
 //@ noraise
 //@ ensures  Inv_api(ls) && base(ls) == old(base(ls)) && top(ls) == old(top(ls))
 //@ ensures  forall k int :: 0 <= k && k < top(ls) ==> ls.reg.array[k] == ite(k == old(i2r(ls, idx)) && k >= base(ls), value, old(ls.reg.array[k]))
+//@ ensures  arrSameOrFresh(ls.reg) && cap(ls.reg.array) >= old(cap(ls.reg.array))
 //@ modifies ls.reg.array, ls.reg.top, ls.reg.array[*]
